@@ -401,15 +401,30 @@ fn cmp_exact(who: &str, step: usize, got: [f64; 5], exp: &Value, perturb: usize)
 
 fn exact_targets(c: &Value, rep: &mut Report, perturb: usize) -> Mis {
     let z: Vec<f32> = jarr(c, "z").iter().map(|v| ji(v) as f32).collect();
-    let h = rat(jget(c, "h"));
-    let (wp, wv) = (rat(jget(c, "wp")), rat(jget(c, "wv")));
     let ops: Vec<&str> = jarr(c, "ops").iter().map(|o| o.as_str().expect("op")).collect();
     let st = jarr(c, "st");
     let dexp = rat(jget(c, "d")) * if perturb == 1 { 1.01 } else { 1.0 };
     const OTHER: f32 = 50.0;
+    // the parameter set of the specification and its equivalent one (same sigma = w * h): same expected numbers
+    let mut psets = vec![(rat(jget(c, "h")), rat(jget(c, "wp")), rat(jget(c, "wv")), "")];
+    if let Some(a) = c.get("alt") {
+        psets.push((rat(jget(a, "h")), rat(jget(a, "wp")), rat(jget(a, "wv")), "alt-"));
+    }
+    for (h, wp, wv, tag) in psets.clone() {
+        // ---- through a tracker: initiate(z0); predict; update(z0); predict; update(z2) is what Sort does with the
+        //      detections z0, z2 - the run of the specification with z1 = z0 (estimates after the two updates)
+        // (z3 is not used by the trackers: one case per (z0, z2); building a tracker starts threads, so not under the
+        // covariance perturbations of the binding demonstration either)
+        if z[1] == z[0] && z[3] == z[2] && perturb < 2 {
+            if let Some(m) = exact_through_tracker(&z, h, wp, wv, tag, st, perturb) {
+                return Some(m);
+            }
+        }
+    }
+    for (h, wp, wv, tag) in psets {
     for axis in 0..2usize {
         // ---- box filter: the chosen centre coordinate moves, everything else is stationary
-        let who = format!("box-{}", if axis == 0 { "x" } else { "y" });
+        let who = format!("{}box-{}", tag, if axis == 0 { "x" } else { "y" });
         let f = Universal2DBoxKalmanFilter::new(wp as f32, wv as f32);
         let bx = |v: f32| {
             if axis == 0 {
@@ -444,6 +459,9 @@ fn exact_targets(c: &Value, rep: &mut Report, perturb: usize) -> Mis {
             return Some((format!("{}:exact:distance", who), json!({"spec": dexp, "impl": d})));
         }
         // ---- point filter: no height scaling, so the weights are w * h
+        if !tag.is_empty() {
+            continue; // the point filter has no height: one parameter set
+        }
         let who = format!("point-{}", if axis == 0 { "x" } else { "y" });
         let f = Point2DKalmanFilter::new((wp * h) as f32, (wv * h) as f32);
         let p = |v: f32| if axis == 0 { (v, OTHER) } else { (OTHER, v) };
@@ -466,6 +484,44 @@ fn exact_targets(c: &Value, rep: &mut Report, perturb: usize) -> Mis {
         let d = f.distance(&s, &pt(p(z[3]).0, p(z[3]).1)) as f64;
         if !near(d, dexp, 1e-4) {
             return Some((format!("{}:exact:distance", who), json!({"spec": dexp, "impl": d})));
+        }
+    }
+    }
+    None
+}
+
+/// the same recurrence observed through the trackers (each tracker is built with its own Kalman weights; several
+/// trackers with different weights live in this process one after the other)
+fn exact_through_tracker(z: &[f32], h: f64, wp: f64, wv: f64, tag: &str, st: &[Value], perturb: usize) -> Mis {
+    use similari::prelude::{PositionalMetricType, Sort, VisualSort, VisualSortObservation, VisualSortOptions};
+    let bx = |v: f32| Universal2DBox::new(v, 50.0, None, 1.0, h as f32);
+    let p = |k: usize| rat(&st[k][0]) * if perturb == 1 { 1.01 } else { 1.0 };
+    let check = |who: &str, step: usize, got: f32, exp: f64, len: usize| -> Mis {
+        if len != step + 1 {
+            return Some((format!("{}{}:exact:track not continued", tag, who), json!({"detection": step + 1, "track_length": len})));
+        }
+        if !near(got as f64, exp, 1e-4) {
+            return Some((format!("{}{}:exact:estimate", tag, who), json!({"detection": step + 1, "spec": exp, "impl": got, "weights": [wp, wv], "height": h})));
+        }
+        None
+    };
+    let mut t = Sort::new(1, 2, 5, PositionalMetricType::IoU(0.01), 0.05, None, wp as f32, wv as f32);
+    for (step, (zi, k)) in [(z[0], 1usize), (z[2], 3usize)].iter().enumerate() {
+        let r = t.predict(&[(bx(*zi), None)]);
+        if let Some(m) = check("sort", step, r[0].predicted_bbox.xc, p(*k), r[0].length) {
+            return Some(m);
+        }
+    }
+    let opts = VisualSortOptions::default()
+        .positional_metric(PositionalMetricType::IoU(0.01))
+        .kalman_position_weight(wp as f32)
+        .kalman_velocity_weight(wv as f32)
+        .max_idle_epochs(5);
+    let mut t = VisualSort::new(1, &opts);
+    for (step, (zi, k)) in [(z[0], 1usize), (z[2], 3usize)].iter().enumerate() {
+        let r = t.predict(&[VisualSortObservation::new(None, None, bx(*zi), None)]);
+        if let Some(m) = check("visualsort", step, r[0].predicted_bbox.xc, p(*k), r[0].length) {
+            return Some(m);
         }
     }
     None
